@@ -57,17 +57,62 @@ def is_ptrial(v):
 
 # ------------------------------------------------------------------------------------------ sets of ints
 class PredSet:
-    def __init__(self, pred, card=None):
-        self.pred, self.card = pred, card
+    """finite: optional list of python ints that contains every possible member (bounded model queries): then emptiness,
+    max and min are exact ground terms instead of skolemised facts."""
+
+    def __init__(self, pred, card=None, finite=None):
+        self.pred, self.card, self.finite = pred, card, finite
+        self._nonempty = self._max = self._min = None
 
     def has(self, x):
         return self.pred(E.as_int(x) if not z3.is_expr(x) else x)
 
     def copy(self):
-        return PredSet(self.pred, self.card)
+        return PredSet(self.pred, self.card, self.finite)
 
     def __repr__(self):
         return '<predset>'
+
+
+def _fact(run, f):
+    (run.axiom if E._has_quantifier(f) else run.assume)(f)
+
+
+def set_nonempty(it, s):
+    """bool(s): exists x. x in s   (skolemised: a witness when true, a universal fact when false)"""
+    if s._nonempty is None:
+        run = it.run
+        if s.finite is not None:
+            s._nonempty = z3.Or(*[s.has(z3.IntVal(i)) for i in s.finite]) if s.finite else z3.BoolVal(False)
+        else:
+            b, w, x = run.fresh('nonempty', z3.BoolSort()), run.fresh('member', z3.IntSort()), z3.Int('x!ne')
+            _fact(run, z3.Implies(b, s.has(w)))
+            run.axiom(z3.Implies(z3.Not(b), z3.ForAll([x], z3.Not(s.has(x)))))
+            s._nonempty = b
+    return s._nonempty
+
+
+def set_extreme(it, s, which):
+    """max(s) / min(s): ValueError on the empty set, else a member that bounds every member."""
+    if not it.truth(set_nonempty(it, s)):
+        raise PyRaise(it.make_exc('ValueError', ['%s() arg is an empty sequence' % which]))
+    cached = s._max if which == 'max' else s._min
+    if cached is None:
+        run = it.run
+        v, x = run.fresh(which + '_of_set', z3.IntSort()), z3.Int('x!mx')
+        bound = (lambda e: e <= v) if which == 'max' else (lambda e: e >= v)
+        _fact(run, s.has(v))
+        if s.finite is not None:
+            for i in s.finite:
+                run.assume(z3.Implies(s.has(z3.IntVal(i)), bound(z3.IntVal(i))))
+        else:
+            run.axiom(z3.ForAll([x], z3.Implies(s.has(x), bound(x))))
+        cached = v
+        if which == 'max':
+            s._max = v
+        else:
+            s._min = v
+    return cached
 
 
 # number of distinct elements of the list (n, arr)
@@ -141,11 +186,12 @@ def _binop(it, op, l, r, inplace):
             a, b = as_predset(it, l), as_predset(it, r)
             if a is None or b is None:
                 raise Unsupported('set operation between %r and %r' % (l, r))
+            both = sorted(set(a.finite) | set(b.finite)) if (a.finite is not None and b.finite is not None) else None
             if isinstance(op, ast.Sub):
-                return PredSet(lambda x: z3.And(a.has(x), z3.Not(b.has(x))))
+                return PredSet(lambda x: z3.And(a.has(x), z3.Not(b.has(x))), finite=a.finite)
             if isinstance(op, ast.BitOr):
-                return PredSet(lambda x: z3.Or(a.has(x), b.has(x)))
-            return PredSet(lambda x: z3.And(a.has(x), b.has(x)))
+                return PredSet(lambda x: z3.Or(a.has(x), b.has(x)), finite=both)
+            return PredSet(lambda x: z3.And(a.has(x), b.has(x)), finite=a.finite if a.finite is not None else b.finite)
     if isinstance(op, ast.Sub) and isinstance(l, M.PySet) and isinstance(r, M.PySet):
         s = M.PySet()
         for x in l.elems:
@@ -191,6 +237,21 @@ def list_of_set(it, s):
     run.set_listings = getattr(run, 'set_listings', []) + [(n, arr, s)]
     return SymList(n, arr, 'int')
 
+
+def _wrap_extreme(which):
+    orig = M.BUILTINS[which].fn
+
+    def fn(it, args, kw):
+        if len(args) == 1 and isinstance(args[0], PredSet):
+            if 'default' in kw and not it.truth(set_nonempty(it, args[0])):
+                return kw['default']
+            return set_extreme(it, args[0], which)
+        return orig(it, args, kw)
+    M.BUILTINS[which] = Builtin(which, fn)
+
+
+_wrap_extreme('max')
+_wrap_extreme('min')
 
 _orig_list = M.BUILTINS['list'].fn
 
@@ -341,6 +402,7 @@ def filtered(it, xs, keep, tag):
     # every kept element occurs (skolemised: at position pos[i])
     run.axiom(z3.ForAll([i], z3.Implies(z3.And(i >= 0, i < xs.n, keep(xs.arr[i])), z3.And(pos[i] >= 0, pos[i] < n, src[pos[i]] == i))))
     r = ProvList(n, arr, PT_KIND, src, pos)
+    r.parent = xs
     return r
 
 
@@ -436,7 +498,7 @@ def _truth(prev):
         if isinstance(v, (SupporterRef, DesignerRef)):
             return True
         if isinstance(v, PredSet):
-            raise Unsupported('truth value of a symbolic set')
+            return set_nonempty(it, v)
         return prev(it, v)
     return hook
 
@@ -480,7 +542,7 @@ _orig_filter_map = M.symbolic_filter_map
 
 def _filter_map(it, fr, e, xs):
     """[elt(x) for x in xs if c(x)] over an array-list of trials (models.symbolic_filter_map knows only scalar/message elements)."""
-    if xs.elem != PT_KIND:
+    if xs.elem != PT_KIND and not isinstance(xs.elem, pm.MsgSchema):
         return _orig_filter_map(it, fr, e, xs)
     run = it.run
     gen = e.generators[0]
@@ -495,6 +557,8 @@ def _filter_map(it, fr, e, xs):
         it.pure -= 1
     eterm = E.to_z3(eltv)
     kind = {z3.IntSort(): 'int', z3.BoolSort(): 'bool', Str: 'str', PT: PT_KIND}.get(eterm.sort())
+    if isinstance(eltv, pm.Msg):
+        kind = eltv.schema
     if kind is None:
         raise Unsupported('comprehension element sort %s' % eterm.sort())
     n = run.fresh('cn', z3.IntSort())
@@ -515,3 +579,62 @@ def _filter_map(it, fr, e, xs):
 
 
 M.symbolic_filter_map = _filter_map
+
+
+# ------------------------------------------------------------------------------------------ all()/any() over range(a, b) with symbolic bounds
+class RangeGen:
+    """generator expression over range(lo, hi) with symbolic bounds, consumed by all()/any() as a bounded quantifier"""
+
+    def __init__(self, fr, e, rng):
+        self.fr, self.e, self.rng = fr, e, rng
+
+    def quantified(self, it, universal):
+        run = it.run
+        gen = self.e.generators[0]
+        if self.rng.step != 1 or len(self.e.generators) != 1 or not isinstance(gen.target, ast.Name):
+            raise Unsupported('generator over a symbolic range with a step / nested generators')
+        J = run.fresh('r', z3.IntSort())
+        fr2 = E.Frame(self.fr.mod, {gen.target.id: J}, parent=self.fr)
+        it.pure += 1
+        try:
+            cond = E.zbool(E.zand(*[it.truth_term(it.eval(fr2, c)) for c in gen.ifs]))
+            body = E.zbool(it.truth_term(it.eval(fr2, self.e.elt)))
+        finally:
+            it.pure -= 1
+        lo = self.rng.lo if z3.is_expr(self.rng.lo) else z3.IntVal(self.rng.lo)
+        hi = self.rng.hi if z3.is_expr(self.rng.hi) else z3.IntVal(self.rng.hi)
+        j = z3.Int('j!rg')
+        inr = z3.And(j >= lo, j < hi, z3.substitute(cond, (J, j)))
+        f = z3.ForAll([j], z3.Implies(inr, z3.substitute(body, (J, j)))) if universal else z3.Exists([j], z3.And(inr, z3.substitute(body, (J, j))))
+        # the path solver stays quantifier-free: branch on a fresh boolean defined by the quantified fact
+        b = run.fresh('all_in_range' if universal else 'any_in_range', z3.BoolSort())
+        run.axiom(b == f)
+        return b
+
+
+_orig_comprehension = M.comprehension
+
+
+def _comprehension(it, fr, e, kind):
+    if kind == 'gen' and len(e.generators) == 1:
+        first = it.eval(fr, e.generators[0].iter)
+        if isinstance(first, M.SymRange):
+            return RangeGen(fr, e, first)
+    return _orig_comprehension(it, fr, e, kind)
+
+
+M.comprehension = _comprehension
+
+
+def _wrap_quant(name, universal):
+    orig = M.BUILTINS[name].fn
+
+    def fn(it, args, kw):
+        if args and isinstance(args[0], RangeGen):
+            return args[0].quantified(it, universal)
+        return orig(it, args, kw)
+    M.BUILTINS[name] = Builtin(name, fn)
+
+
+_wrap_quant('all', True)
+_wrap_quant('any', False)
